@@ -1402,7 +1402,8 @@ class AnySubstBuilder(LookupBuilder):
         # rules, but multi and liga sub rules themselves have incompatible
         # representations. It is uncommon that these are in the same set of
         # rules, but it happens.
-        is_multi = any(len(v) > 1 for v in mapping.values())
+        # a deletion (`sub a by NULL`, an empty sequence) is a multiple substitution too
+        is_multi = any(len(v) != 1 for v in mapping.values())
         is_liga = any(len(k) > 1 for k in mapping.keys())
 
         has_existing_multi = False
@@ -1413,7 +1414,7 @@ class AnySubstBuilder(LookupBuilder):
                 continue
             if len(k) > 1:
                 has_existing_liga = True
-            if len(v) > 1:
+            if len(v) != 1:
                 has_existing_multi = True
 
         can_reuse = not (has_existing_multi and is_liga) and not (
